@@ -22,6 +22,7 @@ RULE = ("one run = 1-3 disjoint component groups, 5-40 unique requests sent thro
         "distribute_power completing as drawn (synchronously, after one iteration, after a delay, raising); "
         "non-trivial = at least one request arrived while one of the same group was in flight; distinct = "
         "distinct abstract event sequence (kind, group) of sends/enters/exits")
+EXPECT_PROBES = ["arrival_while_in_flight", "send_at_completion", "sync_completion", "equal_valued_request", "actor_stop_start"]
 QUICK_RUNS = 6000
 THOROUGH_RUNS = 400_000
 
@@ -84,6 +85,7 @@ class State:
         self.sent_at_idle: list[int] = [0] * ngroups    # latest idx sent before last idle point
         self.floor_next: list[int] = [0] * ngroups      # lower bound for the next started idx
         self.overlapped = False
+        self.actor_stopped = False
         self.idx_of: dict[int, int] = {}                # id(Request object) -> send index (objects are kept alive)
         self.keep: list[Any] = []
         self.power_of: dict[int, float] = {}
@@ -124,6 +126,8 @@ class State:
 
     def on_idle(self) -> None:
         sim = self.sim
+        if self.actor_stopped:
+            return   # a stopped actor does not consume its requests: nothing can be deduced at idle points
         for g in range(len(self.groups)):
             latest = self.sent[g][-1] if self.sent[g] else 0
             self.sent_at_idle[g] = latest
@@ -174,7 +178,25 @@ def scenario(sim: Sim) -> None:
         sim.loop.idle_hooks.append(st.on_idle)
 
         t = sim.now_us
+        restart_at = ch.int_between("restart_at_request", 2, nreq) if ch.chance("stop_start", 0.15) else None
+        expected_starts = 1
         for k in range(1, nreq + 1):
+            if k == restart_at:
+                # the actor is stopped and started again while requests may be in flight / pending; requests sent
+                # meanwhile wait in the channel.  Nothing of the property may break across the restart.
+                sim.probe("actor_stop_start")
+                sim.fault("actor_stop_start")
+                sim.note("stop() + start() of the distributor")
+                sim.ev("restart", "", k)
+                st.actor_stopped = True
+                await actor.stop()
+                if ch.chance("gap_while_stopped", 0.5):
+                    await asyncio.sleep(ch.choice("stopped_for", [0.0, 0.01, 1.0]))
+                actor.start()
+                expected_starts += 1
+                await asyncio.sleep(0)          # let the new run task get going before deducing anything again
+                await asyncio.sleep(0.000001)
+                st.actor_stopped = False
             g = ch.draw("group", ngroups)
             kind = ch.weighted("gap_kind", [4, 3])
             if kind == 1 and g in st.planned_done:
@@ -211,8 +233,9 @@ def scenario(sim: Sim) -> None:
             if st.sent[g] and (not st.started[g] or st.started[g][-1] != st.sent[g][-1]):
                 sim.violation("eventually_latest", {"what": "last request of a group never applied"},
                               f"group {g}: sent {st.sent[g][-1]}, started {st.started[g][-3:]}")
-        if probe.started != 1:
-            sim.violation("actor_restarted", {"what": "actor run logic restarted during the run"}, str(probe.started))
+        if probe.started != expected_starts:
+            sim.violation("actor_restarted", {"what": "actor run logic restarted by itself during the run"},
+                          f"component manager started {probe.started} times, expected {expected_starts}")
         sim.loop.idle_hooks.clear()
         await actor.stop()
         await real_manager.stop()
